@@ -215,14 +215,17 @@ let handle line =
         alines := []
     | "OUT" :: out -> finish_case out
     | [ "COV"; kind ] -> note_case ~nontrivial:false kind ""
-    | [ "NUM"; s; f; u; a ] ->
+    | [ "NUM"; s; f; u; a; uk ] ->
         let b = bytes_of_s s in
         let mf = opt_hex (parse_float b) in
         let mu = opt_hex (parse_uint b) in
         let ma = match atoi b with None -> "err" | Some z -> i64hex_of_z z in
+        (* the kind of ParseUint's failure (Parser.int after F12 saturates on ErrRange, where ParseUint
+           returns MaxUint64, and takes the float64 path on ErrSyntax) *)
+        let mk = match parse_uint_r b with UOk _ -> "ok" | URange -> "range:ffffffffffffffff" | USyntax -> "syntax" in
         note_case ~nontrivial:(mf <> "err" || mu <> "err") "num" line;
-        if mf <> f || mu <> u || ma <> a then
-          Printf.printf "DISAGREE %s || strconv model: ParseFloat=%s ParseUint=%s Atoi=%s\n" line mf mu ma
+        if mf <> f || mu <> u || ma <> a || mk <> uk then
+          Printf.printf "DISAGREE %s || strconv model: ParseFloat=%s ParseUint=%s Atoi=%s ParseUint-kind=%s\n" line mf mu ma mk
     | _ -> failwith ("unexpected line: " ^ String.sub line 0 (min 60 (String.length line)))
 
 let () = iter_lines handle
